@@ -49,3 +49,11 @@ reg("C09", "model_checking",
     "RegexObject life-cycle transitions replayed",
     "regexp is the judge of acceptance and of error texts - the specification generates the inputs and defines QuoteMeta and the metadata functions.",
     "TLC-enumerated pattern strings and limit families; differential conformance with regexp as judge; TLA+ definitions for QuoteMeta/metadata", "DESIGN.md §6 C09")
+
+reg("C19", "model_checking",
+    "Every special-purpose searcher on every TLC-generated (pattern, haystack, start offset) it accepts: end to end for patterns whose selected strategy is a "
+    "fast path (Engine.IsMatch/FindIndicesAt/FindAt/FindSubmatchAt vs the reference), and directly for the public searchers constructed as meta/compile.go "
+    "constructs them when their own applicability predicate accepts (CharClassSearcher, CompositeSearcher, CompositeSequenceDFA, BranchDispatcher, anchored "
+    "literal matcher, first-byte rejection set)",
+    _NOTE + " A pattern that the selector no longer routes to a fast path is not counted (dropping a fast path violates nothing); per-strategy coverage is reported.",
+    "TLC-generated per-offset vectors replayed end to end by strategy and into directly constructed searchers", "DESIGN.md §6 C19")
